@@ -308,7 +308,7 @@ void h_thread_got_event(void)
 			__CPROVER_assert(g_post_kick_thr == 1 && iv_list_empty(&v_thr->list) && g_treg == 0, "[C12] leaving with items still queued (submitted while every worker was busy): the worker re-posts its own kick, so the items are not stranded");
 		}
 	} else {
-		__CPROVER_assert(verif_in.shutting && v_pool->seq_head == v_pool->seq_tail, "[C13] the worker retires only during shutdown with an empty queue");
+		__CPROVER_assert(verif_in.shutting && v_pool->seq_head == v_pool->seq_tail, "[C13,C12] the worker retires only during shutdown with an EMPTY queue: items submitted before the pool was put still run and complete");
 		__CPROVER_assert(g_frees == 1 && g_ev_unreg == 1 && g_stop_calls == 1 && v_pool->started_threads == verif_in.started - 1, "[C13] retiring: kick event released, record freed, thread count dropped, thread-stop hook called once");
 	}
 	__CPROVER_assert(IMPLIES(verif_in.on_idle, g_tunreg == 1), "[C12] a worker that was idle cancels its idle timer when it is woken");
